@@ -75,9 +75,9 @@ impl<'a> World<'a> {
         let mut m = BTreeMap::new();
         let fake = PathBuf::from(FAKE_ROOT);
         let (data_base, log_base) = if o.same_dir {
-            (fake.join("shared"), fake.join("shared"))
+            (fake.join("Shared"), fake.join("Shared"))
         } else {
-            (fake.join("data"), fake.join("logs"))
+            (fake.join("Data"), fake.join("Node Logs"))
         };
         let (upnp, home) = if o.auto_set_nat_flags {
             match it.nat {
